@@ -62,7 +62,6 @@ Hypothesis nts_not_nan : forall x, nts x <> of_string "NaN".
 Hypothesis nts_plain : forall x, plain (nts x).
 Variable t : kty.                       (* the map's key type, comparable *)
 Hypothesis t_comparable : comparable t = true.
-Hypothesis t_nbu : nbu t = true.
 Variable D : list dyn.                  (* the dynamic types that occur *)
 Hypothesis D_ok : univ_ok by_id D.
 
@@ -114,7 +113,7 @@ Fixpoint a_run (os : list op) (m : option amap) : list (obs * amap) :=
 
 (* ---- key values the theorem speaks about *)
 Definition kok (k : val) : Prop :=
-  wt t k = true /\ incl (dyns k) D /\ all_dyn_nbu k = true.
+  wt t k = true /\ incl (dyns k) D.
 
 Definition op_ok (o : op) : Prop :=
   match o with
@@ -133,7 +132,7 @@ Proof.
   - cbn [key_for]. destruct (float_key nts r u) as [? u1]. destruct (float_key nts i u1). eauto.
   - cbn [key_for]. destruct (id_key r u); eauto.
   - (* dyn *) cbn [hashable] in Hh. apply andb_true_iff in Hh as [C' Hh].
-    rewrite K_dyn. destruct (IHx (d_shape d) u W C' Hh) as (k & s' & ->). eauto.
+    rewrite K_dyn. rewrite C'. destruct (IHx (d_shape d) u W C' Hh) as (k & s' & ->). eauto.
   - (* array *)
     cbn [hashable] in Hh. apply andb_true_iff in W as [_ W]. rewrite K_arr. rewrite C.
     enough (E : exists ks s', keys_arr (fun x s => K ty x s) (fun _ k => escape (key_str k)) l u = (Some ks, s')).
@@ -175,7 +174,7 @@ Proof. intros s l am H. induction H as [|js a l am (E & _) _ IH]; [reflexivity|]
 Lemma slot_eqb : forall s js a k key s', wf s -> slot_rel s js a -> kok k -> K t k s = (Some key, s') ->
   jskey_eqb (fst js) key = go_eq t (fst a) k.
 Proof.
-  intros s js a k key s' W (E & (Wa & Ia & _) & sa & sb & Wsa & HK & L) (Wk & Ik & _) HK2.
+  intros s js a k key s' W (E & (Wa & Ia) & sa & sb & Wsa & HK & L) (Wk & Ik) HK2.
   apply eq_true_iff_eq.
   exact (key_iff_eq nts by_id nts_inj nts_nonzero nts_not_nan nts_plain t (fst a) k D sa (fst js) sb s key s'
                     D_ok Ia Ik Wa Wk Wsa HK L W HK2).
@@ -240,10 +239,10 @@ Lemma key_cases : forall k s, kok k -> wf s ->
   (hashable t k = true /\ exists key s', K t k s = (Some key, s') /\ wf s' /\ sle s s') \/
   (hashable t k = false /\ exists s', K t k s = (None, s') /\ wf s' /\ sle s s').
 Proof.
-  intros k s (Wk & Ik & Zk) W. destruct (hashable t k) eqn:Hh.
+  intros k s (Wk & Ik) W. destruct (hashable t k) eqn:Hh.
   - left. split; [reflexivity|]. destruct (hashable_has_key k t s Wk t_comparable Hh) as (key & s' & E).
     exists key, s'. split; [exact E|]. eapply K_mono; eauto.
-  - right. split; [reflexivity|]. pose proof (unhashable_throws nts by_id k t s Wk t_nbu Zk Hh) as E.
+  - right. split; [reflexivity|]. pose proof (unhashable_throws nts by_id k t s Wk t_comparable Hh) as E.
     destruct (K t k s) as [[key|] s'] eqn:E'; [discriminate E|]. exists s'. split; [reflexivity|]. eapply K_mono; eauto.
 Qed.
 
